@@ -47,7 +47,7 @@ class C12(E1Check):
                 "that task's model stack and a freshly created Context().parent with the model's top; distinct = distinct traces")
 
     def bounds(self, tier: str) -> dict:
-        return {"tasks": 2 if tier == "quick" else 3, "script_ops": 4, "deviation_bound": 0 if tier == "quick" else 1}
+        return {"tasks": 2 if tier == "quick" else 3, "script_ops": 4, "deviation_bound": 0 if tier == "quick" else "2 for one task, 0 (all interleavings of the gate-delimited steps) for two and three tasks"}
 
     def units(self, tier: str, seed: int) -> list:
         progs = []
@@ -87,14 +87,24 @@ class C12(E1Check):
                             if (i % 3 != (depth + len(progs)) % 3) and sa == sb:
                                 continue
                             progs.append({"depth": depth, "tasks": [{"spawn": sa, "script": a}, {"spawn": sb, "script": b}]})
+        def nops(sc: list) -> int:
+            return sum(1 + nops(ch) for _m, ch in sc)
+
         if tier == "thorough":
+            # measured: two tasks with 4 blocks in total cost ~2 200 schedules per program, three tasks with >= 5 blocks exceed the
+            # 30 000-execution cap (the tasks are independent, the interleavings are not reduced): every 2nd of the former, none of the latter
+            two4 = [p for p in progs if len(p["tasks"]) == 2 and sum(nops(t["script"]) for t in p["tasks"]) >= 4]
+            drop = {id(p) for p in two4[1::2]}
+            progs = [p for p in progs if id(p) not in drop]
             for sc3 in itertools.product(few, repeat=3):
+                if sum(nops(x) for x in sc3) > 4:
+                    continue
                 for sp in (("tg", "tg", "tg"), ("tg", "service", "factory"), ("component", "component", "tg")):
                     progs.append({"depth": 1, "tasks": [{"spawn": s, "script": x} for s, x in zip(sp, sc3)]})
         return progs
 
     def bound(self, tier: str, program: Any) -> int:
-        return 0 if tier == "quick" else (1 if len(program["tasks"]) == 1 else 0)
+        return 0 if tier == "quick" else (2 if len(program["tasks"]) == 1 else 0)
 
     def max_execs(self, tier: str, program: Any) -> int:
         return 3000 if tier == "quick" else 30000
